@@ -40,7 +40,10 @@ ASSUMPTIONS = [
     "`x.rng = s` is applied to the reference, the original and every twin before continuing (measured: continuation is then bitwise identical, bound 1e-5 relative); "
     "in 'free' cases (20%) the generators are left alone: summation order then differs and Adam / an unstable run amplify that float32 noise without bound "
     "(measured 1e-3 in obj, 8e-2 in a diverging loss history), so only what is a function of the split state alone is judged there: iteration count, constraints and the "
-    "first continued entry of the loss and learning-rate histories (measured noise 2e-7, bound 1e-4)",
+    "first continued entry of the loss and learning-rate histories (measured noise 2e-7, bound 1e-4); "
+    "a designated sixth of the cases leaves the generators alone in a numerically benign run (plain SGD on object, probe and dataset, no plateau scheduler, monotone reference "
+    "history; mostly with a dataset optimizer and descan_tv_weight > 0): there the order inside the full batch differs after a reload and the WHOLE continuation is judged - "
+    "bounds loss 1e-4 / probe 1e-4 / object 1e-2 / learned dataset parameters 2e-3 against measured summation-order noise 4.3e-7 / 1.5e-7 / 5.9e-5 / 1.0e-5",
     "state equality after reload is judged at 1e-6 relative (measured 0)",
     "the raw-data-free save is judged for state equality always (object/probe/detector constraints; dataset constraints live in the dataset that is not saved) "
     "and for continuation only when the dataset model has no optimizer (its Adam state lives in the skipped dataset)",
@@ -57,6 +60,9 @@ STYLES = ["plain", "plain", "two_calls", "new_constraints", "add_probe_optimizer
 TOL_STATE = 1e-6
 TOL_SYNC = 1e-5
 TOL_FREE = 1e-4
+# free generators + benign run (plain SGD on everything, monotone reference history): whole continuation judged.  Measured summation-order noise on the
+# unchanged tree over 1 180 comparisons (4 seeds x 72 cases): loss history 4.3e-7, probe 1.5e-7, object 5.9e-5, learned dataset parameters 1.0e-5
+TOL_FREE_BENIGN = {"loss": 1e-4, "probe": 1e-4, "obj": 1e-2, "dataset": 2e-3}
 
 
 def plan(tier, seed):
@@ -67,7 +73,7 @@ def plan(tier, seed):
     for i in range(n):
         specs.append({"kind": "twins", "opt": OPTIMIZERS[i % 4], "sched": SCHEDULERS[(i // 4) % 5], "k": int(rng.choice([0, 1, 1, 2, 2, 3, 3, 4, 5, 6, 7])), "style": STYLES[int(rng.integers(len(STYLES)))],
                       "sync": bool(rng.random() < 0.8), "order": ["twins_first", "original_first"][int(rng.integers(2))],
-                      "errors": ["none", "none", "at_split", "before_split", "before_split", "both"][int(rng.integers(6))], "i": i})
+                      "errors": ["none", "none", "at_split", "before_split", "before_split", "both"][int(rng.integers(6))], "benign": i % 6 == 5, "i": i})
     hist = [{"kind": "history", "opt": OPTIMIZERS[(i + 1) % 4], "sched": SCHEDULERS[(i // 2) % 5], "k": int(rng.integers(0, 4)), "style": ["plain", "plain", "new_constraints", "new_scheduler"][int(rng.integers(4))], "i": i}
             for i in range(nh)]
     # interleave (one history case after every third twin case) so that every worker sees both kinds and the evidence samples show both
@@ -122,7 +128,7 @@ def setup(ctx):
 # workload
 
 
-def _opt_params(rng, name, dataset):
+def _opt_params(rng, name, dataset, ds_sgd=False):
     lo = {"type": "sgd", "lr": float(10 ** rng.uniform(-1.3, -0.3))}
     lp = {"type": "sgd", "lr": float(10 ** rng.uniform(-2.5, -1.5))}
     if name == "sgd_momentum":
@@ -138,6 +144,8 @@ def _opt_params(rng, name, dataset):
     op = {"object": lo, "probe": lp}
     if dataset:
         op["dataset"] = {"type": "adam", "lr": float(10 ** rng.uniform(-3.5, -2.5))}
+        if ds_sgd:
+            op["dataset"] = {"type": "sgd", "lr": float(10 ** rng.uniform(-1.5, -0.5))}
     return op
 
 
@@ -301,7 +309,7 @@ def _observe_unjudged(ctx, name, differs):
         ctx.count("observed_unjudged:%s:differs" % name)
 
 
-def _compare(ctx, ref, got, tol, f, judge_dataset_constraints=True, first_only=None, judge_dataset_params=False):
+def _compare(ctx, ref, got, tol, f, judge_dataset_constraints=True, first_only=None, judge_dataset_params=False, free_full=None):
     """ref/got: snapshots of the public state; one evaluation per observable named by the property.
 
     first_only=k (free-running generators): only the first continued iteration (history entries 0..k) is judged - it is a function of the
@@ -329,6 +337,17 @@ def _compare(ctx, ref, got, tol, f, judge_dataset_constraints=True, first_only=N
     ro = _relmax(ref["obj"], got["obj"])
     rp = _relmax(ref["probe"], got["probe"])
     rd = max(_relmax(ref["descan"], got["descan"]) if np.abs(ref["descan"]).max() > 0 else float(np.abs(got["descan"]).max()), _relmax(ref["positions"], got["positions"]))
+    if first_only is not None and free_full is not None:
+        # free-running generators in a numerically benign run (plain SGD everywhere, no loss-driven scheduler, monotone reference history): summation
+        # order noise stays at the float32 level, so the whole continued history and the arrays are judged - a full batch must not care about its order
+        rl = _relmax(ref["iter_losses"], got["iter_losses"]) if same_len else float("inf")
+        trk = "%s:free_benign" % ph
+        ctx.close(rl, free_full["loss"], "iter_losses_differ", lambda: "%s %s (free generators, benign run): iter_losses %s vs expected %s" % (f["twin"], ph, got["iter_losses"].tolist()[-6:], ref["iter_losses"].tolist()[-6:]), track=trk, **f)
+        ctx.close(ro, free_full["obj"], "obj_differs", lambda: "%s %s (free generators, benign run): max|obj - expected| / max|expected|" % (f["twin"], ph), track=trk, **f)
+        ctx.close(rp, free_full["probe"], "probe_differs", lambda: "%s %s (free generators, benign run): max|probe - expected| / max|expected|" % (f["twin"], ph), track=trk, **f)
+        if judge_dataset_params:
+            ctx.close(rd, free_full["dataset"], "dataset_parameters_differ", lambda: "%s %s (free generators, benign run): learned descan shifts / scan positions" % (f["twin"], ph), track=trk, **f)
+        return max(r, rl, ro, rp)
     if first_only is not None:
         st = ctx.state.setdefault("free_noise", {"obj": 0.0, "probe": 0.0, "loss_history": 0.0})
         st.update(obj=max(st["obj"], ro), probe=max(st["probe"], rp), loss_history=max(st["loss_history"], _relmax(ref["iter_losses"], got["iter_losses"]) if same_len else 0.0))
@@ -421,10 +440,18 @@ def _run_twins(spec, idx, ctx):
     I = scenes.simulate_scene(sc)
     J = int(np.prod(sc.gpts))
     k, style, sync = int(spec["k"]), spec["style"], bool(spec["sync"])
+    opt_name, sched_name = spec["opt"], spec["sched"]
+    benign = bool(spec.get("benign"))
+    if benign:
+        # designated class: generators left alone AND numerically benign (plain SGD on object, probe and dataset, no loss-driven scheduler), so that the
+        # whole continuation can be judged although the order inside the full batch differs after a reload
+        sync, opt_name = False, "sgd"
+        sched_name = "exp" if sched_name == "plateau" else sched_name
+        style = style if style in ("plain", "two_calls", "new_constraints") else "plain"
     add_ds = style == "add_dataset_optimizer"  # the dataset parameters are learnable, but their optimizer only appears in the continuation
-    dataset = (not add_ds) and bool(rng.random() < 0.35)  # a dataset optimizer exists at the split
+    dataset = (not add_ds) and bool(rng.random() < (0.75 if benign else 0.35))  # a dataset optimizer exists at the split
     learn_descan = dataset or (add_ds and bool(rng.random() < 0.8))
-    learn_pos = (dataset and bool(rng.random() < 0.6)) or (add_ds and (not learn_descan or bool(rng.random() < 0.5)))
+    learn_pos = (dataset and bool(rng.random() < (0.3 if benign else 0.6))) or (add_ds and (not learn_descan or bool(rng.random() < 0.5)))
     seed = int(rng.integers(1 << 30))
     init = "uniform" if rng.random() < 0.7 else None
     loss_type = ["l2_amplitude", "l2_amplitude", "l1_amplitude", "l2_intensity", "poisson"][int(rng.integers(5))]
@@ -432,10 +459,14 @@ def _run_twins(spec, idx, ctx):
     def build():
         return scenes.build_library(sc, I, seed=seed, obj_init=init, install_truth=False, learn_descan=learn_descan, learn_scan_positions=learn_pos)
 
-    m = int(rng.integers(2, 5)) if spec["i"] % 7 else 1
-    op = _opt_params(rng, spec["opt"], dataset)
-    sp = _sched_params(rng, spec["sched"], list(op), 0)  # (0: schedulers never derive their rate from the length of the installing call, which may be 0)
+    m = int(rng.integers(2, 5)) if (spec["i"] % 7 or benign) else 1
+    op = _opt_params(rng, opt_name, dataset, ds_sgd=benign)
+    sp = _sched_params(rng, sched_name, list(op), 0)  # (0: schedulers never derive their rate from the length of the installing call, which may be 0)
     cons = _constraints(rng, sc, dataset)
+    if benign and dataset and rng.random() < 0.8:
+        # a dataset soft constraint that is a function of the WHOLE descan field (total variation along the scan): hostile to anything that looks at the
+        # descan shifts in batch order
+        cons.setdefault("dataset", {})["descan_tv_weight"] = float(10 ** rng.uniform(-2.5, -0.5))
     snaps = bool(rng.random() < 0.4)
     if snaps and rng.random() < 0.5:
         # no active probe constraint: the public probe is then the live parameter itself (hostile for stored snapshots)
@@ -467,7 +498,7 @@ def _run_twins(spec, idx, ctx):
             cont.append(dict(num_iters=int(rng.integers(1, 3)), batch_size=J, loss_type=loss_type))
     ds_active = dataset or add_ds  # learned scan positions / descan shifts take part in the continuation
     order = spec.get("order", "twins_first")
-    f0 = {"optimizer": spec["opt"], "scheduler": spec["sched"], "style": style, "sync": "sync" if sync else "free", "dataset_optimizer": dataset}
+    f0 = {"optimizer": opt_name, "scheduler": sched_name, "style": style, "sync": "sync" if sync else "free", "dataset_optimizer": dataset, "benign": benign}
     sync_seed = int(rng.integers(1 << 30))
     pre_seed = int(rng.integers(1 << 30))
 
@@ -557,6 +588,13 @@ def _run_twins(spec, idx, ctx):
     # ---- continuation, in both orders (original first / twins first): whoever shares state with somebody else starts from the other's progress ---
     tol = TOL_SYNC
     ckw = {} if sync else {"first_only": k}
+    hist = ref_final["iter_losses"]
+    stable = bool(np.isfinite(hist).all()) and all(hist[i + 1] <= hist[i] + 1e-3 * abs(hist[i]) for i in range(len(hist) - 1))
+    if benign:
+        ctx.count("free_benign_cases")
+        ctx.count("free_benign_cases_judged_in_full", int(stable))
+        if stable:  # (a run that is not monotone is treated like the Adam cases: first continued entry only)
+            ckw["free_full"] = TOL_FREE_BENIGN
     worst = 0.0
 
     def frozen(snap0, pt, who, during):
@@ -593,10 +631,10 @@ def _run_twins(spec, idx, ctx):
     shutil.rmtree(pn, ignore_errors=True)
     lrs = ref_final["iter_lrs"].get("object", np.zeros(0))
     lr_changed = bool(len(lrs) > 1 and np.ptp(lrs[lrs > 0]) > 0) if len(lrs) and (lrs > 0).any() else False
-    stateful = spec["opt"] != "sgd"
+    stateful = opt_name != "sgd"
     finite = bool(np.isfinite(ref_final["iter_losses"]).all())
     ctx.count("cases_nonfinite_history", int(not finite))
-    ctx.nontrivial((spec["opt"], spec["sched"], k, style, dataset, errors != "none"), k >= 1 and m >= 2 and (stateful or lr_changed) and finite)
+    ctx.nontrivial((opt_name, sched_name, k, style, dataset, errors != "none", benign), k >= 1 and m >= 2 and (stateful or lr_changed or benign) and finite)
     ctx.observe(scene=sc.describe(), k=k, m=m, style=style, sync=sync, order=order, failed_saves=errors, iterations_between_failed_save_and_checkpoint=k_b, learn_descan=learn_descan, learn_scan_positions=learn_pos, optimizer=op, scheduler=sp, constraints=cons, loss=loss_type, dataset_optimizer=dataset, snapshots=snaps, twins=sorted(twins),
                 iter_losses=ref_final["iter_losses"].tolist(), iter_lrs_object=lrs.tolist(), lr_changed=lr_changed, worst_continuation_residual=worst)
 
@@ -710,7 +748,8 @@ def summarize(all_cases, counters, extras):
         "loads": int(counters.get("hook:Ptychography.from_file", 0)),
         "clones": int(counters.get("hook:Ptychography.clone", 0)),
         "optimizer_reconnects": int(counters.get("hook:OptimizerMixin.reconnect_optimizer_to_parameters", 0)),
-        "tolerances": {"state": TOL_STATE, "continuation_sync": TOL_SYNC, "continuation_free_first_iteration_only": TOL_FREE, "lr_history": 1e-6},
+        "free_benign_cases": "%d judged in full of %d" % (counters.get("free_benign_cases_judged_in_full", 0), counters.get("free_benign_cases", 0)),
+        "tolerances": {"state": TOL_STATE, "continuation_sync": TOL_SYNC, "continuation_free_benign_full": TOL_FREE_BENIGN, "continuation_free_first_iteration_only": TOL_FREE, "lr_history": 1e-6},
         "free_running_generators_unjudged_noise": {k: max([e.get("free_running_generators_unjudged_noise", {}).get(k, 0.0) for e in extras] or [0.0]) for k in ("obj", "probe", "loss_history")},
         "observed_unjudged": {k[len("observed_unjudged:"):]: int(v) for k, v in sorted(counters.items()) if k.startswith("observed_unjudged:")},
     }
